@@ -795,45 +795,51 @@ def find_slot_paths(facts, adt, type_rx, depth=0):
     return out
 
 
-def lift_site(facts, g, bb):
-    """A read inside a private helper or a closure is judged in the function it serves: a closure belongs to the function it is written in;
-    while the function holding the site is a private, non-trait function whose callers all sit in one other function of the same file, move
-    up; then find the site in that function's body with the helpers and closures of its file spliced in.  -> (function to analyse, block)"""
+def lift_sites(facts, g, bb, depth=0):
+    """A site inside a private helper or a closure is judged in the function(s) it serves: a closure belongs to the function it is written
+    in; a private, non-trait function is replaced by its callers in the same file (each of them, when there are several); the site is then
+    found in each such function's body with the helpers and closures of its file spliced in.  -> list of (function to analyse, block)"""
     import inline
-    top = g
-    seen = {g.id}
-    while True:
+    tops, work, seen = [], [g], {g.id}
+    while work:
+        top = work.pop()
         if "{closure" in top.id:
             parent = facts.fns.get(re.sub(r"::\{closure#\d+\}$", "", top.id))
-            if parent is None or parent.id in seen:
-                break
-            seen.add(parent.id)
-            top = parent
-            continue
+            if parent is not None and parent.id not in seen:
+                seen.add(parent.id); work.append(parent)
+                continue
+            tops.append(top); continue
         if top.rec.get("impl_trait") is not None or top.rec.get("vis_pub"):
-            break
-        callers = {h.id for h, b2, t2 in facts.callers_of(top.id)}
-        if len(callers) != 1:
-            break
-        nxt = facts.fns[next(iter(callers))]
-        if nxt.id in seen or nxt.file != top.file:
-            break
-        seen.add(nxt.id)
-        top = nxt
+            tops.append(top); continue
+        callers = sorted({h.id for h, b2, t2 in facts.callers_of(top.id)})
+        cf = [facts.fns[c] for c in callers]
+        if not cf or any(h.file != top.file for h in cf) or len(seen) > 12:
+            tops.append(top); continue
+        new = [h for h in cf if h.id not in seen]
+        if not new:
+            tops.append(top); continue
+        for h in new:
+            seen.add(h.id); work.append(h)
     cache = facts.__dict__.setdefault("_lift_cache", {})
-    if top.id == g.id:
-        if g.rec.get("impl_trait") != T_DROP:
-            return g, bb
-        # a destructor is judged with the private helpers of its file spliced in (`while !self.is_finished()`), but not the Read impls
-        # it drains through: those are sites of their own
-    if top.id not in cache:
-        cache[top.id] = inline.inlined(facts, top.id, stop=lambda d: facts.fns[d].rec.get("local") and (facts.fns[d].file != top.file or (facts.fns[d].rec.get("impl_trait") == T_READ and d != g.id)))
-    R = cache[top.id]
-    for b in range(R.n):
-        blk = R.blocks[b]
-        if blk.get("src") == g.id and blk.get("obb") == bb and not blk.get("synthetic"):
-            return R, b
-    return g, bb
+    out = []
+    for top in tops:
+        if top.id == g.id and g.rec.get("impl_trait") != T_DROP:
+            out.append((g, bb)); continue
+        # (a destructor is judged with the private helpers of its file spliced in, but not the Read impls it drains through)
+        if top.id not in cache:
+            cache[top.id] = inline.inlined(facts, top.id, stop=lambda d, top=top: facts.fns[d].rec.get("local") and (facts.fns[d].file != top.file or (facts.fns[d].rec.get("impl_trait") == T_READ and d != g.id and d != top.id)))
+        R = cache[top.id]
+        hit = [b for b in range(R.n) if R.blocks[b].get("src") == g.id and R.blocks[b].get("obb") == bb and not R.blocks[b].get("synthetic")]
+        if hit:
+            out += [(R, b) for b in hit[:1]]
+        elif top.id == g.id:
+            out.append((g, bb))
+    return out or [(g, bb)]
+
+
+def lift_site(facts, g, bb):
+    """single-context form of lift_sites (the first context)"""
+    return lift_sites(facts, g, bb)[0]
 
 
 def abstractly_visited(facts):
@@ -1051,4 +1057,46 @@ def server_drop_own_sites(facts):
         if src in members and private_to_drop(src):
             out[(src, blk.get("obb", b))] = (f, b)
     facts._server_drop_sites = out
+    return out
+
+
+def chunked_reader_adt(facts):
+    """the body reader that decodes the chunked transfer coding, bound by role: the struct of the crate that holds a chunked_transfer
+    Decoder and implements Read"""
+    if hasattr(facts, "_chunked_reader_adt"):
+        return facts._chunked_reader_adt
+    out = []
+    for aid, a in sorted(facts.adts.items()):
+        if a["kind"] == "Struct" and facts.trait_method(T_READ, aid, "read") is not None and find_slot_paths(facts, aid, r"chunked_transfer::(decoder::)?Decoder<"):
+            out.append(aid)
+    facts._chunked_reader_adt = out[0] if len(out) == 1 else None
+    return facts._chunked_reader_adt
+
+
+def boxed_body_readers(facts):
+    """concrete types turned into the Request's `Box<dyn Read + Send>` body reader: the unsizing coercions in the connection instance of
+    new_request and in the instances of the private helpers of its file that it calls.  -> list of (fn, block, concrete type)"""
+    if hasattr(facts, "_boxed_readers"):
+        return facts._boxed_readers
+    nr = facts.fn("request::new_request")
+    insts = [i for i in facts.instances_of(nr.id) if not i["generic"] and "SequentialReader<" in i["name"]]
+    if len(insts) != 1:
+        raise CheckerError("connection instance of new_request not found (%d)" % len(insts))
+    want = norm_dyn("dyn std::io::Read + std::marker::Send")
+    out, seen, work = [], set(), [insts[0]]
+    while work:
+        inst = work.pop()
+        if inst["id"] in seen:
+            continue
+        seen.add(inst["id"])
+        g = facts.fns.get(inst.get("def"))
+        for e in inst.get("edges", []):
+            if e["k"] == "unsize" and e["info"].get("vtable") and norm_dyn(e["info"]["dyn"]) == want and g is not None:
+                out.append((g, e["bb"], e["info"]["vtable"]))
+            if e["k"] == "call" and e.get("to") is not None:
+                to = facts.instances[e["to"]]
+                h = facts.fns.get(to.get("def")) if to.get("kind") == "item" else None
+                if h is not None and h.rec.get("local") and h.file == nr.file and h.rec.get("impl_self_adt") != REQ:
+                    work.append(to)
+    facts._boxed_readers = out
     return out
